@@ -25,7 +25,12 @@ RULE = ('hypothesis: hierarchy spec (2..7 classes; chain/tree/diamond; implicit,
         'C.get(reverse=holder), select over C (3 forms), select_by_sql (full / pk+discriminator only), navigation from '
         'Holder (to-one; to-many by iteration/copy/select), queries with [not] isinstance(x, C | (C1, C2, ..)) on the '
         'iterated entity, on a to-one reference and on collection items, subclass-attribute filter/projection in a '
-        'base-class query, attribute filter through a reference, related objects as query results. One case = one spec; '
+        'base-class query, attribute filter through a reference, related objects as query results, '
+        'C.select_random(n) / C.select().random(n) for n in 1..3 on root and non-root classes (int pks optionally sparse, '
+        'step 2 or 5, so that MAX(id) exceeds 2n; the `random` module is seeded per operation for replay). On every object '
+        'reached the FIRST look is, per case, at type(), at to_dict() or at an attribute only the subclass has (an '
+        'unloaded base-class stub is repaired by the first base-attribute read); afterwards type, all attributes and '
+        'to_dict() are compared with the creation record. One case = one spec; '
         'non-trivial = during the read program at least one object created as a strict subclass was met through a path '
         'declared for a strict ancestor (measured, not assumed); distinct by hash of the whole spec.')
 ASSUMPTIONS = ['SQLite (sandbox build) live through pony.orm.dbproviders.sqlite; other providers share core.py and '
@@ -37,7 +42,8 @@ ASSUMPTIONS = ['SQLite (sandbox build) live through pony.orm.dbproviders.sqlite;
 SHARDS = {'quick': 4, 'thorough': 16}
 MIN_EVALS = {'quick': 500, 'thorough': 20000}
 CLASS_FLOORS = {'shape:diamond': 0.15, 'shape:chain': 0.10, 'discr:int': 0.08, 'custom_discr': 0.20,
-                'stub_first_session': 0.25, 'isinstance_query': 0.15, 'subclass_attr_query': 0.03, 'reopen': 0.10}
+                'stub_first_session': 0.25, 'isinstance_query': 0.15, 'subclass_attr_query': 0.03, 'reopen': 0.10,
+                'select_random_nonroot': 0.05, 'observe:dict': 0.10, 'observe:subattr': 0.10, 'sparse_pk': 0.10}
 
 
 def _classes(spec, model, stats):
@@ -282,7 +288,9 @@ MANIFEST = {
             'to the same file) run a generated read program that meets every object by different paths in different '
             'orders; the oracle is the plain record of which class created which primary key: type() by every path, '
             'C[pk]/C.get for non-instances, exact result sets of select over every class, [not] isinstance forms in '
-            'queries against Python isinstance, subclass attributes read back. Sampled, not exhaustive.',
+            'queries against Python isinstance, subclass attributes and to_dict() read back (first look at the class, at '
+            'to_dict() or at a subclass-only attribute), select_random / random(n) return only stored instances of the '
+            'class asked for. Sampled, not exhaustive.',
     'note': 'SQLite only. NULL semantics of `not isinstance(h.ref, C)` for a missing reference are not asserted. Raw-SQL '
             'loading is limited to statements whose WHERE clause already restricts the discriminator to the class asked for.',
     'technique': 'hypothesis data-driven model-based testing against a creation-record oracle',
